@@ -101,10 +101,16 @@ def gen_spec(rng, cls):
             ang = round(rng.choice([-1, -1, 1]) * rng.uniform(3.3, 5.6), 3)
         g = round(rng.uniform(0.0, 0.05), 3)
         fi = rng.choice([0.0, 0.5, round(rng.uniform(0, 0.7), 2)])
-        return {"cls": "Dipole", "kw": {"length": L, "angle": ang, "dipole_e1": rng.choice([0.0, round(rng.uniform(-0.3, 0.3), 3)]),
-                                        "dipole_e2": rng.choice([0.0, round(rng.uniform(-0.3, 0.3), 3)]),
-                                        "tilt": rng.choice([0.0, 0.0, round(rng.uniform(-0.8, 0.8), 3)]),
-                                        "gap": g, "gap_exit": g, "fringe_integral": fi, "fringe_integral_exit": fi}}
+        kw = {"length": L, "angle": ang, "dipole_e1": rng.choice([0.0, round(rng.uniform(-0.3, 0.3), 3)]),
+              "dipole_e2": rng.choice([0.0, round(rng.uniform(-0.3, 0.3), 3)]),
+              "tilt": rng.choice([0.0, 0.0, round(rng.uniform(-0.8, 0.8), 3)]),
+              "gap": g, "gap_exit": g, "fringe_integral": fi, "fringe_integral_exit": fi}
+        # round 8 (seeded change C07-7): an exit fringe integral of its own in 4 cases of 10, with a sizeable gap so that the exit face
+        # really depends on it (gap_exit stays = gap: the linear exit map reads `gap`, the Bmad-X fringe `gap_exit`, a separate question)
+        if rng.random() < 0.4:
+            kw["fringe_integral_exit"] = round(rng.uniform(0.0, 0.7), 2)
+            kw["gap"] = kw["gap_exit"] = round(rng.uniform(0.02, 0.05), 3)
+        return {"cls": "Dipole", "kw": kw}
     raise ValueError(cls)
 
 
@@ -598,7 +604,7 @@ def main(tier, replay=None):
     common.setup_python_env()
     thorough = tier == "thorough"
     run.cov["rule"] = ("Drift/Quadrupole/Dipole/TDC with tracking_method='bmadx': lengths 0.05..1.5 m, k1 in {0, +-1, +-12}, tilt {0, random, pi/4}, num_steps "
-                       "{1,2,5}, bend angles +-(0.02..0.6) rad, edge angles, gap/fint (gap_exit=gap, fint_exit=fint); energies 1.6 MeV..5 GeV; 1-3 paraxial "
+                       "{1,2,5}, bend angles +-(0.02..0.6) rad, edge angles, gap/fint (gap_exit=gap; fint_exit of its own in 4 cases of 10); energies 1.6 MeV..5 GeV; 1-3 paraxial "
                        "particles (|x|,|px| <= 2e-3, |delta| <= 0.05); quadrupoles of the Coq correspondence additionally misaligned (<= 1 mm), k1 in {0, +-(0.5..12), +-1}, "
                        "num_steps cycling 1/2/5, delta in {0, +-(1e-4..2e-3), +-0.05} at 2 MeV..5 GeV so that both branches of low_energy_z_correction occur; dipoles of the Coq correspondence: "
                        "angles +-(0.02..0.6) and +-(1.6..2.6) rad cycling (both exit-position branches c1/c2, both arctan2 quadrants), gap_exit/fint_exit differing from gap/fint in half of the cases, "
@@ -794,6 +800,37 @@ def main(tier, replay=None):
                       replay=kf.get("replay", F70_INPUT))
         else:
             run.violation({"kind": "oracle", "case": kf.get("replay", F70_INPUT), "failure": {"what": "finding F70 (listed as fixed) fails again", "observed": obs}})
+    # ---- known finding F91 (linear exit fringe reads `gap`, Bmad-X reads `gap_exit`): replay the stored input
+    for kf in common.load_known_findings(PID):
+        if kf.get("id") != "F91" or not kf.get("replay"):
+            continue
+        rp = kf["replay"]
+        try:
+            f = jacobian_oracle(rp["spec"], rp["E0"])
+        except Exception as ex:
+            f = {"what": "exception: " + repr(ex)[:200]}
+        sig = False
+        if f and "bmadx_jacobian" in f:
+            D = (torch.tensor(f["bmadx_jacobian"], dtype=T64) - torch.tensor(f["transfer_map"], dtype=T64)).abs()
+            sc = max(1.0, float(torch.tensor(f["transfer_map"], dtype=T64).abs().max()))
+            where = [tuple(ix) for ix in (D > 1e-9 * sc).nonzero().tolist()]
+            same_gap = json.loads(json.dumps(rp["spec"]))
+            same_gap["kw"]["gap_exit"] = same_gap["kw"]["gap"]
+            sig = bool(where) and set(where) <= {(3, 2), (3, 3)} and jacobian_oracle(same_gap, rp["E0"]) is None
+        if f is None:
+            if kf.get("status") == "known":
+                run.cov["known_findings_not_reproduced"].append("F91")
+                run.notes.append("finding F91 is listed as known but its stored input no longer fails (Bmad-X Jacobian == transfer_map with gap_exit != gap): "
+                                 "the code looks repaired and the status is stale")
+            else:
+                run.cov["regression_inputs_replayed"] = run.cov.get("regression_inputs_replayed", 0) + 1
+        elif kf.get("status") == "known" and sig:
+            run.known(f"linear Dipole exit fringe uses gap where Bmad-X uses gap_exit: Jacobian vs transfer_map differ in the py row only, max {f['max_dev']:.3g} "
+                      f"at gap={rp['spec']['kw']['gap']}, gap_exit={rp['spec']['kw']['gap_exit']} [F91]", replay=rp)
+        else:
+            run.violation({"kind": "oracle", "case": {"spec": rp["spec"], "E0": rp["E0"], "jac": True},
+                           "failure": dict(f, note="stored input of finding F91: " + ("listed as fixed, fails again" if kf.get("status") != "known"
+                                                                                   else "fails outside the signature of F91 (py row only; agreement when gap_exit = gap)"))})
     return run.finish("proof")
 
 
@@ -802,6 +839,8 @@ def do_replay(run, path):
     case = r["case"]
     if case.get("tdc"):
         f = tdc_oracle(run.rng, case["E0"], case["particles"])
+    elif case.get("jac"):         # Jacobian of Bmad-X tracking vs transfer_map on one element (stored input of finding F91)
+        f = jacobian_oracle(case["spec"], case["E0"])
     elif "frac" not in case:      # the stored input of finding F70 (design particle of a bend with angle < -pi)
         obs = f70_probe(case)
         f = {"what": "the design particle of the bend does not come out at the origin (F70)", "observed": obs} if obs is not None else None
